@@ -239,6 +239,8 @@ CHECKS = {
        "Size; both accounts at zero again afterwards (C01_pair_mixed_sequence_exactly_once_v5, C01_pair_qos0_step_v5, Conn/PairSeqMixed5.v); "
        "v5.0 with either side publishing each item, all four accounts at zero after every exchange, and end to end from fresh v5.0 objects "
        "(C01_two_way_mixed_sequence_exactly_once_v5, C01_fresh_v5_two_way_mixed_sequence, Conn/PairSeqMixed25.v, PairSeqMixedFresh5.v); "
+       "the same with manual responses, both versions (C01_pair_mixed_sequence_exactly_once_manual, ..._manual_v5, C01_qos0_step_any_endpoints, "
+       "Conn/PairSeqMixedM.v); "
        "(1v5) v5.0 WITH SEVERAL EXCHANGES IN FLIGHT: the invariant adds the Receive Maximum accounts (sender's count = exchanges in "
        "flight <= the peer's limit; receiver's outstanding set = its handled set), the quota is never exceeded, and after the drain the "
        "vacancy is the full maximum (C01_pair_concurrent_exactly_once_v5); (1b) THE SAME ACROSS TRANSPORT LOSS - persistent sessions, one more action 'the transport "
